@@ -136,7 +136,25 @@ def observe_store(run, kconf, case, names, info, wdep=False, mode=0):
     }, {"t1": t1, "t2": t2, "min": [v[2] for v in variants]}
 
 
-def build_case(run, item, rng, cap):
+def rename_text_for(prog):
+    """A rename table for the program: a plain and an inverted alias of the first free bool, a plain alias of the
+    first int / hex / string option (so that the written file carries a deprecated block)."""
+    info = ktree.sym_info(prog)
+    lines = []
+    seen = set()
+    for n, i in info.items():
+        t = i["type"]
+        if t in seen:
+            continue
+        seen.add(t)
+        lines.append("CONFIG_OLD_%s CONFIG_%s" % (n, n))
+        if t == "bool":
+            lines.append("CONFIG_OLDINV_%s !CONFIG_%s" % (n, n))
+    return "\n".join(lines) + "\n"
+
+
+def build_case(run, item, rng, cap, with_block=False):
+    """with_block: the instance knows a rename table and writes the deprecated-options block."""
     prog, order = item["prog"], item["ord"]
     text = ktree.render(prog)
     info = ktree.sym_info(prog)
@@ -162,7 +180,9 @@ def build_case(run, item, rng, cap):
         vars_[k]["cands"] = vars_[k]["cands"][:1]
         k += 1
     case = {"prog": prog, "ord": order, "vars": vars_, "text": text, "store": []}
-    kconf = kc.build(text, run.scratch)
+    if with_block:
+        case["renames"] = rename_text_for(prog)
+    kconf = kc.build(text, run.scratch, renames=case.get("renames"))
     n = 0
     all_asgs = list(ktree.assignments(vars_))
     warm = os.path.join(run.scratch, "sdk_warm")
@@ -177,7 +197,9 @@ def build_case(run, item, rng, cap):
             os.unlink(warm)
         evalcheck.apply_assignment(kconf, info, vars_, asg)
         try:
-            obs, _ = observe_store(run, kconf, case, names, info, mode=n % 3)
+            obs, texts = observe_store(run, kconf, case, names, info, wdep=with_block, mode=n % 3)
+            if with_block and "# Deprecated options for backward compatibility" in texts["t1"]:
+                case["blocks"] = case.get("blocks", 0) + 1
             obs["err"] = False
         except Exception as e:  # the implementation raised: a violation, reported by the caller
             import traceback
@@ -186,7 +208,7 @@ def build_case(run, item, rng, cap):
             where = ["%s:%d %s" % (os.path.basename(fr.filename), fr.lineno, fr.name) for fr in tb[-4:]]
             obs = {"err": True, "vals": [], "lines": [], "rt_vals": [], "rt_lines": [], "rt_same": True, "rt_quiet": [], "min_lines": [], "min_vals": [], "min_variants_same": True}
             case.setdefault("errors", []).append({"assignment": asg, "exception": "%s: %s" % (type(e).__name__, str(e)[:200]), "where": where})
-            kconf = kc.build(text, run.scratch)
+            kconf = kc.build(text, run.scratch, renames=case.get("renames"))
         case["store"].append(obs)
         n += 1
     kc.reset_report(kconf)
@@ -202,7 +224,7 @@ def run_batch(run, cases, tag, workers=16):
     tab = ktree.tables(strings)
     path = run.sub("store_%s.json" % tag)
     with open(path, "w") as f:
-        json.dump({"tab": tab, "progs": [{k: v for k, v in c.items() if k not in ("text", "errors")} for c in cases]}, f)
+        json.dump({"tab": tab, "progs": [{k: v for k, v in c.items() if k not in ("text", "errors", "renames", "blocks")} for c in cases]}, f)
     res = run_tlc("MC_Store", "MC_Store.cfg", run, env={"STORE_DATA": path}, workers=workers, timeout=3000, tag=tag)
     os.unlink(path)
     from .tlc import extract_tuples
